@@ -98,7 +98,10 @@ func register(name, clause string, fixture bool, run func(p *Prog, r *RuleResult
 }
 
 // runRule executes a rule, converting Undecided panics to an undecided result.
-func runRule(p *Prog, rule *Rule) (res *RuleResult) {
+func runRule(p *Prog, rule *Rule) (res *RuleResult) { return runRuleF(p, rule, true) }
+
+// runRuleF: floors are only enforced on the real tree (the fixture is a positive control, not a census).
+func runRuleF(p *Prog, rule *Rule, floors bool) (res *RuleResult) {
 	res = newResult(p, rule.Name, rule.Clause)
 	defer func() {
 		if e := recover(); e != nil {
@@ -113,7 +116,7 @@ func runRule(p *Prog, rule *Rule) (res *RuleResult) {
 		}
 	}()
 	rule.Run(p, res)
-	if res.Undecided == "" && res.Counted < res.Floor {
+	if floors && res.Undecided == "" && res.Counted < res.Floor {
 		res.Undecided = fmt.Sprintf("instance floor not met: %s: found %d, need >= %d (rule would pass vacuously)", res.FloorWhat, res.Counted, res.Floor)
 	}
 	sort.SliceStable(res.Findings, func(i, j int) bool { return res.Findings[i].Construct < res.Findings[j].Construct })
